@@ -196,27 +196,32 @@ class Grammar:
         sequence = {v for vv in self.alternatives.values() for v in vv}
         return (keys, sequence, sequence.union(keys).union(self.all_nodes))
 
-    def collect_types(self, ty: type):
+    def collect_types(self, ty: type, seen: list | None = None):
+        # A class may mention itself through a list, tuple or union, or through another
+        # class that mentions it back: each type is visited (and yielded) once.
+        if seen is None:
+            seen = []
+        if any(ty is s or ty == s for s in seen):
+            return
+        seen.append(ty)
         yield ty
         if is_generic_list(ty):
             gty = get_generic_parameter(ty)
-            yield from self.collect_types(gty)
+            yield from self.collect_types(gty, seen)
         elif is_annotated(ty):
             gty = get_generic_parameter(ty)
-            yield from self.collect_types(gty)
+            yield from self.collect_types(gty, seen)
         elif is_generic(ty):
             for p in get_generic_parameters(ty):
-                yield from self.collect_types(p)
+                yield from self.collect_types(p, seen)
         elif is_metahandler(ty):
             nt = get_args(ty)[0]
-            yield from self.collect_types(nt)
+            yield from self.collect_types(nt, seen)
         elif is_abstract(ty):
             pass
         else:
             for _, argt in get_arguments(ty):
-                if argt != ty:
-                    yield from self.collect_types(argt)
-                # TODO: This does not support mutually recursive types.
+                yield from self.collect_types(argt, seen)
 
     def get_all_mentioned_symbols(self) -> set[type]:
         return {x for t in self.get_all_symbols()[2] for x in self.collect_types(t)}
